@@ -650,6 +650,31 @@ Definition describe_input (c : cfg) (t : ty) : res (bytes * uuid) :=
   | None => Err EStruct
   end.
 
+(* describe_input_shape(..., prepare_state=True): the element types of the top-level input shape
+   are described, its own descriptor is not emitted *)
+Definition prepare_input (c : cfg) (t : ty) (s : st) : res st :=
+  match t with
+  | TInput mt free els =>
+      '(_, s1) <- mapM (fun e => if is_multi_card (snd (fst e))
+                                 then desc_set c (desc_ty c) (snd e)
+                                 else desc_input c (snd e)) els s ;;
+      Ok s1
+  | _ => '(_, s1) <- desc_ty c t s ;; Ok s1
+  end.
+
+(* StateSerializerFactory.make: the context prepared once per protocol version ([base] = the
+   state type without globals / extension configs) is COPIED (Context.derive) and the actual
+   state type [call] is described on top of the copy; b''.join(ctx.buffer).
+   A Gallina state is a value, so the model is the copy semantics: every call starts from the
+   same prepared state, whatever was described by earlier calls. *)
+Definition make_state (c : cfg) (base call : ty) : res (bytes * uuid) :=
+  s0 <- prepare_input c base st0 ;;
+  '(id, s) <- desc_input c call s0 ;;
+  match ocat (map (ser c) (nodes s)) with
+  | Some b => Ok (b, id)
+  | None => Err EStruct
+  end.
+
 Definition NULL_ID : uuid := repeat 0 16%nat.
 
 (* sertypes.describe_params : params = [(name, type, required)] *)
@@ -1063,3 +1088,4 @@ Definition dict_of {V} (l : list (str * V)) : list (str * V) :=
 Definition describe_c := describe uuid5.
 Definition describe_params_c := describe_params uuid5.
 Definition describe_input_c := describe_input uuid5.
+Definition make_state_c := make_state uuid5.
